@@ -126,6 +126,49 @@ func podDigest(p *v1.Pod, selAll bool) string {
 		p.Labels[kubeapps.StatefulSetRevisionLabel], b2s(p.Labels[apps.StatefulSetPodNameLabel] == p.Name))
 }
 
+// worldRound: one round (settle; refresh; sync) of the world, its observation token `s<j>=...`, the outcome and the number of writes.
+// `crashed` says whether the previous round ended in a crash (the controller object is then built anew) and is updated.
+func (w *syWorld) worldRound(c *syCase, j int, crashed *bool) (part string, out string, writes int) {
+	w.settle()
+	w.refresh(*crashed)
+	*crashed = false
+	w.log = nil
+	w.count = map[string]int{}
+	if j > 1 {
+		w.faults = map[string]string{}
+	}
+	out = "ok"
+	func() {
+		defer func() {
+			if r := recover(); r != nil {
+				if _, isCrash := r.(syCrash); isCrash {
+					out = "crash"
+					*crashed = true
+				} else {
+					out = "panic"
+				}
+			}
+		}()
+		if err := w.ctl.VerifSync(rcNS + "/" + rcSetName); err != nil {
+			out = "err"
+		}
+	}()
+	for _, e := range w.log {
+		if !strings.HasPrefix(e, "list:") && !strings.HasPrefix(e, "get:") {
+			writes++
+		}
+	}
+	var pd []string
+	for _, p := range w.apiPods() {
+		pd = append(pd, podDigest(p, c.selAll))
+	}
+	st := "-"
+	if s := w.apiSet(); s != nil {
+		st = fmtStatus(&s.Status)
+	}
+	return fmt.Sprintf("s%d=%s/%d/%s/%s/%s", j, out, writes, strings.Join(pd, ";"), w.finalRevs(c), st), out, writes
+}
+
 func runWorld(line string) string {
 	i := strings.Index(line, "#")
 	if i < 0 {
@@ -144,45 +187,8 @@ func runWorld(line string) string {
 	silent := 0
 	crashed := false
 	for j := 1; j <= rounds; j++ {
-		w.settle()
-		w.refresh(crashed)
-		crashed = false
-		w.log = nil
-		w.count = map[string]int{}
-		if j > 1 {
-			w.faults = map[string]string{}
-		}
-		out := "ok"
-		func() {
-			defer func() {
-				if r := recover(); r != nil {
-					if _, isCrash := r.(syCrash); isCrash {
-						out = "crash"
-						crashed = true
-					} else {
-						out = "panic"
-					}
-				}
-			}()
-			if err := w.ctl.VerifSync(rcNS + "/" + rcSetName); err != nil {
-				out = "err"
-			}
-		}()
-		writes := 0
-		for _, e := range w.log {
-			if !strings.HasPrefix(e, "list:") && !strings.HasPrefix(e, "get:") {
-				writes++
-			}
-		}
-		var pd []string
-		for _, p := range w.apiPods() {
-			pd = append(pd, podDigest(p, c.selAll))
-		}
-		st := "-"
-		if s := w.apiSet(); s != nil {
-			st = fmtStatus(&s.Status)
-		}
-		parts = append(parts, fmt.Sprintf("s%d=%s/%d/%s/%s/%s", j, out, writes, strings.Join(pd, ";"), w.finalRevs(c), st))
+		part, out, writes := w.worldRound(c, j, &crashed)
+		parts = append(parts, part)
 		n = j
 		if out == "ok" && writes == 0 {
 			silent++
